@@ -410,7 +410,7 @@ func (c *labelCtx) addLabel(lin *kit.LinEval, f *ssa.Function, call *ssa.Call, k
 	if s, _, ok := elemIndex(call.Call.Args[1]); ok {
 		if y, lo, ok := c.sliceOrigin(lin, s); ok && lin.Key(y) != lin.Key(x) {
 			ys := c.shapeOf(lin, y, call)
-			src := ys.ph.Add(ys.off).Add(lo)
+			src := ys.ph.Add(ys.off).Add(lo).Subst(subst)
 			if src.OK && len(inits) == 1 {
 				first := lin.Of(inits[0]).AddK(bias).Subst(subst)
 				// only decidable when the source is the receiver (same chain, heights preserved)
